@@ -918,3 +918,46 @@ class RawAclose(UnixUnit):
 
 
 UNITS += [RawAclose]
+
+
+class UnixSendEof(UnixUnit):
+    """UNIXSocketStream.send_eof(): the write side is shut down only while this call holds the send guard, so a send_eof()
+    while another task is inside send() is refused with BusyResourceError and shuts nothing down (seed C18-s6 dropped the
+    guard: the stream was half-closed in the middle of another task's item)."""
+
+    method = "send_eof"
+    trusted = ("E1", "E10")
+
+    def model_getattr(self, ip, obj, attr):
+        st = ip.st
+        if isinstance(obj, Sym) and obj.ty is RS and attr == "shutdown":
+            def shutdown(ip, how):
+                self.shutdowns.append(self.entered_guard)
+                st.put("RawSock", "$shut_wr", obj.t, z3.BoolVal(True))
+
+            return Builtin("socket.shutdown", shutdown)
+        return super().model_getattr(ip, obj, attr)
+
+    def on_entry(self, ip, pre, a):
+        super().on_entry(ip, pre, a)
+        self.shutdowns = []
+
+    def on_exit(self, ip, pre, a, exc, ret):
+        s = a.self
+        post = H(ip.st)
+        nm = "UNIXSocketStream.send_eof"
+        sock, sg = pre.f(UX, "__raw_socket", s), pre.f(UX, "_send_guard", s)
+        name = exc.pycls.__name__ if exc is not None and exc.pycls is not None else None
+        held = [g is not None and g.eq(sg) for g in self.shutdowns]
+        if not all(held):
+            ip.ctx.fail(f"{nm}/post:the_write_side_is_shut_down_only_while_this_call_holds_the_send_guard", "post", "socket.shutdown() was called without the send guard being held by this call")
+        else:
+            ip.ctx.oblige(f"{nm}/post:the_write_side_is_shut_down_only_while_this_call_holds_the_send_guard", z3.BoolVal(True), "post")
+        if name == "BusyResourceError":
+            ip.ctx.oblige(f"{nm}/post:a_busy_send_direction_is_refused_and_nothing_is_shut_down", z3.And(pre.f("ResourceGuard", "_guarded", sg), z3.BoolVal(not self.shutdowns), post.f("RawSock", "$shut_wr", sock) == pre.f("RawSock", "$shut_wr", sock)), "post")
+            return
+        if exc is None:
+            ip.ctx.oblige(f"{nm}/post:on_return_the_write_side_is_shut_down_once_and_the_guard_is_released", z3.And(z3.BoolVal(len(self.shutdowns) == 1), post.f("RawSock", "$shut_wr", sock), z3.Not(post.f("ResourceGuard", "_guarded", sg)), z3.Not(pre.f("ResourceGuard", "_guarded", sg))), "post")
+
+
+UNITS += [UnixSendEof]
